@@ -146,6 +146,20 @@ def undefined_variants(t, v, limit=2):
     from vf.spec import ObjectT
 
     out = []
+    if isinstance(t, ObjectT) and t.kind == "typeddict" and type(v) is dict:
+        # a TypedDict value whose key typed Union[X, UndefinedType] holds Undefined (present key, to be omitted)
+        for f in t.fields:
+            if f.undefined and not f.aggregate and len(out) < limit:
+                out.append({**v, f.name: Undefined})
+        return out
+    if isinstance(t, ObjectT) and t.kind == "namedtuple" and isinstance(v, tuple) and hasattr(v, "_replace"):
+        for f in t.fields:
+            if f.undefined and not f.aggregate and len(out) < limit:
+                try:
+                    out.append(v._replace(**{f.name: Undefined}))
+                except Exception:
+                    pass
+        return out
     if not (isinstance(t, ObjectT) and t.kind == "dataclass" and dataclasses.is_dataclass(v)):
         return out
     if t.fields_set:
